@@ -469,6 +469,11 @@ class Contract:
     trusted: tuple[str, ...] = ()           # T-/S- items this contract relies on (for the evidence)
     assumptions: tuple[str, ...] = ()       # explicit `requires` / assumed clauses, in words
 
+    @staticmethod
+    def keep(obligation_name: str) -> bool:
+        """Filter of obligation names reported by this contract (one scenario can serve two properties)."""
+        return True
+
     # -- the scenario ----------------------------------------------------------------------------
     def setup(self, it: Interp, env: Env) -> tuple[FuncV | None, CallArgs]:
         raise NotImplementedError
@@ -582,6 +587,8 @@ class Lemma(Contract):
 # ------------------------------------------------------------------------------------------------
 def explore(engine: Engine, contract: Contract, budget_s: float = 600.0):
     """All paths of one contract.  Returns dict(obligations, paths, undecided, errors)."""
+    import copy
+    proto = contract
     work: list[list[int]] = [[]]
     obligations: list[Obl] = []
     undecided: list[str] = []
@@ -595,8 +602,9 @@ def explore(engine: Engine, contract: Contract, budget_s: float = 600.0):
         engine.state = st
         it = Interp(st)
         paths += 1
+        per_path = copy.copy(proto)          # attributes set while running a path never leak into the next
         try:
-            contract.run(it)
+            per_path.run(it)
         except PathEnd:
             pass
         except Unsupported as u:
@@ -611,7 +619,7 @@ def explore(engine: Engine, contract: Contract, budget_s: float = 600.0):
         except z3.Z3Exception:
             pass
         work.extend(st.new_branches)
-        obligations.extend(st.obligations)
+        obligations.extend(o for o in st.obligations if contract.keep(o.name))
         covers |= st.cover_hits
         if paths >= contract.max_paths:
             undecided.append(f"{contract.name}: path limit {contract.max_paths} reached")
